@@ -28,8 +28,31 @@ def run(ctx):
                               ({"VERIF_LOG": "trace", "VERIF_QUIET": "1"}, "zoo, trace logging"),
                               ({"GOOM_DEBUG": "1", "VERIF_QUIET": "1"}, "zoo, GOOM_DEBUG=1"),
                               ({"VERIF_LOG": "debug-then-off", "VERIF_QUIET": "1"}, "zoo, debug open at apply time and closed before the calls")])
+    # the other mock kinds under debug logging: their oracles have no logging variable either
+    from lib.replay import replay_family
+    dbg = {"VERIF_LOG": "debug", "VERIF_QUIET": "1"}
+    n = 120 if q else 1500
+    fam = [("iface", "MC_Iface", "Sim_Iface.cfg", {"GODEBUG": "clobberfree=1"}, 12),
+           ("method", "MC_Method", "Sim_Method.cfg", {}, 12),
+           ("var", "MC_VarMock", "Sim_VarMock.cfg", {}, 13)]
+    for name, mod, cfg, env, depth in fam:
+        b2 = ctx.behaviours(ctx.tlc(mod, cfg, workers=1, timeout=900, simulate="num=%d" % n, depth=depth, tag="%s histories for the debug replay" % name))
+        if name == "method":
+            from checks import c06
+            summ = replay_family(ctx, name, b2, env=dict(dbg, **env), classify=c06.classify)
+        else:
+            summ = replay_family(ctx, name, b2, env=dict(dbg, **env), batch=4000)
+        if not summ.get("debug_steps"):
+            from lib import vlib
+            raise vlib.Broken("family %s: debug logging was never open during the replay (vacuous)" % name)
+    for sig in ("f1", "v1", "mv"):
+        two = {"Sig": "<- Sig" + sig.upper(), "V": "{0, 1}", "MaxTail": 2, "MaxClauses": 2, "R": "{1, 2}"}
+        b3 = ctx.behaviours(ctx.tlc("MC_When", "MC_When.cfg", workers=1, timeout=900, constants=two, simulate="num=%d" % (60 if q else 800), depth=8,
+                                    tag="when/%s configurations for the debug replay" % sig))
+        replay_family(ctx, "when", b3, env=dict(dbg, VERIF_SIG=sig))
     ctx.cov["rule"] = ("the behaviours of the lifecycle family (all histories of the stub alphabet to depth 3 + random "
                        "length-12 histories with OpenDebug/CloseDebug/OpenTrace/CloseTrace interleaved by TLC) replayed under "
                        "4 logging configurations x 4 handle kinds; the oracle (required call results, image) has no logging "
-                       "variable, so any dependence on logging is a mismatch")
+                       "variable, so any dependence on logging is a mismatch; interface, method, variable and conditional-stub histories "
+                       "replayed under debug logging as well; the generated signature zoo under debug, trace, GOOM_DEBUG and debug-open-at-apply-closed-at-call")
     ctx.assumptions += ["argument/result values in this family are ints; nil/cyclic/unexported-field values are rendered in the C01/C09 zoo replays under debug"]
